@@ -24,6 +24,14 @@ def step (_ : Unit) (ws : List String) : Unit × String :=
       | some (st, n) => ((), s!"st={st} calls={n}")
       | none => ((), "bad-op")
     | none => ((), "bad-op")
+  | ["post", r] | ["destroy", r] =>
+    match parseOutcome r with
+    | some o => ((), s!"st={once o} calls=1")
+    | none => ((), "bad-op")
+  | ["init", v, r] =>
+    match v.toNat?, parseOutcome r with
+    | some v, some o => if v < 2 ^ 32 then ((), s!"st={once o} calls=1 pshared={(semInitArgs v).1} value={(semInitArgs v).2}") else ((), "bad-op")
+    | _, _ => ((), "bad-op")
   | "timed" :: ns :: nn :: s :: n :: clk :: rest =>
     match ns.toInt?, nn.toInt?, s.toNat?, n.toNat?, parseOutcome clk, parseOutcomes rest with
     | some ns, some nn, some s, some n, some clk, some o =>
